@@ -9,9 +9,10 @@ fit in the receive buffer) is the outer `none` — the error branch is explicit,
 The operator is an arbitrary `op : α → α → α`; the theorems in Props.lean assume associativity (+ commutativity
 where MPI allows implementations to reorder).
 
-Part 2 (section Sched): round-based message-passing *schedules* of four algorithms, following
+Part 2 (section Sched): round-based message-passing *schedules* of nine algorithms, following
   /repo/src/smpi/colls/bcast/bcast-binomial-tree.cpp, allreduce/allreduce-rdb.cpp, allgather/allgather-ring.cpp,
-  alltoall/alltoall-pair.cpp
+  alltoall/alltoall-pair.cpp, reduce/reduce-flat-tree.cpp, reduce/reduce-binomial.cpp, allreduce/allreduce-lr.cpp,
+  allgather/allgather-bruck.cpp, alltoall/alltoall-ring.cpp
 branch by branch (quoted below).  Props.lean proves them equal to the spec for every communicator size.
 The other algorithms of /repo/src/smpi/colls are NOT modelled: they are covered by the correspondence only.
 -/
@@ -316,6 +317,163 @@ def pairRounds (blocks : List (List (List α))) (rank : Nat) : Nat → List (Opt
 def alltoallPair (blocks : List (List (List α))) (rank : Nat) : Option (List (Option (List α))) :=
   let np := blocks.length
   if isPow2 np then some (pairRounds blocks rank np (List.replicate np none)) else none
+
+/-- ### reduce flat tree (reduce-flat-tree.cpp)
+```
+  if (rank != root) { send(sbuf, root); return 0; }
+  if (rank == size-1) sendrecv(sbuf -> rbuf) else recv(rbuf, size-1);          // rbuf = x[size-1]
+  for (i = size-2; i >= 0; --i) {
+    if (rank == i) inbuf = sbuf; else { recv(origin, i); inbuf = origin; }      // inbuf = x[i]
+    op->apply(inbuf, rbuf); }                                                   // rbuf = x[i] op rbuf
+```
+Every non-root rank sends exactly one message (its send buffer) and the root receives one message from every other
+rank, each from a named source: the matching is forced.  `flatLoop op x i acc` = the loop from index `i-1` down to 0. -/
+def flatLoop (op : α → α → α) (x : Nat → α) : Nat → α → α
+  | 0, acc => acc
+  | i+1, acc => flatLoop op x i (op (x i) acc)
+
+/-- value in the root's receive buffer (`np ≥ 1`) -/
+def reduceFlatTree (op : α → α → α) (x : Nat → α) (np : Nat) : α := flatLoop op x (np - 1) (x (np - 1))
+
+/-- ### reduce binomial tree (reduce-binomial.cpp)
+```
+  if (count == 0) return 0;
+  is_commutative = op->is_commutative();   lroot = is_commutative ? root : 0;
+  relrank = (rank - lroot + comm_size) % comm_size;
+  copy sendbuf -> recvbuf                    // (a temporary on non-root ranks)
+  mask = 1;
+  while (mask < comm_size) {
+    if ((mask & relrank) == 0) {
+      source = relrank | mask;
+      if (source < comm_size) { source = (source + lroot) % comm_size; recv(tmp_buf, source);
+        if (is_commutative) op->apply(tmp_buf, recvbuf);                         // recvbuf = tmp op recvbuf
+        else { op->apply(recvbuf, tmp_buf); copy tmp_buf -> recvbuf; } }         // recvbuf = recvbuf op tmp
+    } else { dst = ((relrank & ~mask) + lroot) % comm_size; send(recvbuf, dst); break; }
+    mask <<= 1; }
+  if (!is_commutative && root != 0) { if (rank == 0) send(recvbuf, root); else if (rank == root) recv(recvbuf, 0); }
+```
+In relative ranks: `binVal k rr` = content of `recvbuf` of relative rank `rr` after the rounds at masks `1 … 2^(k-1)`
+(meaningful while `rr` is still in the loop, i.e. `rr % 2^k = 0`).  In the round at mask `2^k` it receives from
+`src = rr | 2^k = rr + 2^k` if that rank exists; the model also checks that `src` really sends to `rr` in that round:
+it is still in its loop (`src % 2^k = 0`), its bit `k` is set, and its destination `src & ~mask` is `rr`. -/
+def binVal (op : α → α → α) (comm : Bool) (g : Nat → α) (np : Nat) : Nat → Nat → α
+  | 0, rr => g rr
+  | k+1, rr =>
+    let src := rr + 2 ^ k
+    if src < np ∧ src % 2 ^ k = 0 ∧ (src / 2 ^ k) % 2 = 1 ∧ src - 2 ^ k = rr then
+      if comm then op (binVal op comm g np k src) (binVal op comm g np k rr)
+      else op (binVal op comm g np k rr) (binVal op comm g np k src)
+    else binVal op comm g np k rr
+
+/-- value in the root's receive buffer (`np ≥ 1`, `root < np`); `x r` = send buffer of absolute rank `r`.
+(For a non-commutative operator the value is computed on rank 0 and then sent to `root`.) -/
+def reduceBinomial (op : α → α → α) (comm : Bool) (x : Nat → α) (np root : Nat) : α :=
+  let lroot := if comm then root else 0
+  binVal op comm (fun d => x ((d + lroot) % np)) np (log2up np) 0
+
+/-- ### allreduce logical ring (allreduce-lr.cpp): ring reduce-scatter, then ring allgather
+```
+  if (rcount < size) { allreduce__redbcast(...); return; }            // NOT modelled
+  if (rcount % size != 0) { remainder … }  count = rcount / size;      // remainder -> colls::allreduce on the tail: NOT modelled
+  // copy partial data
+  send_offset = recv_offset = ((rank - 1 + size) % size) * count * extent;
+  sendrecv(sbuf + send_offset -> rbuf + recv_offset)                   // to itself
+  // reduce-scatter
+  for (i = 0; i < size - 1; i++) {
+    send_offset = ((rank - 1 - i + 2 * size) % size) * count * extent;
+    recv_offset = ((rank - 2 - i + 2 * size) % size) * count * extent;
+    sendrecv(rbuf + send_offset -> (rank + 1) % size, tag + i;  rbuf + recv_offset <- (rank + size - 1) % size, tag + i);
+    op->apply(sbuf + recv_offset, rbuf + recv_offset); }               // rbuf[blk] = sbuf[blk] op rbuf[blk]
+  // all-gather
+  for (i = 0; i < size - 1; i++) {
+    send_offset = ((rank - i + 2 * size) % size) * count * extent;
+    recv_offset = ((rank - 1 - i + 2 * size) % size) * count * extent;
+    sendrecv(rbuf + send_offset -> (rank + 1) % size, tag + i;  rbuf + recv_offset <- (rank + size - 1) % size, tag + i); }
+```
+Model for `rcount = size * count` (`count ≥ 1`): the buffers are `size` blocks; `x r b` = block `b` of the send buffer of
+rank `r`; the state gives, per rank and block, the content of `rbuf` (`none` = never written).  In round `i` rank `r`
+receives what `p = (r + size - 1) % size` sends in ITS round `i` (tags `tag + i`, one source: the matching is forced; the
+model checks that `p`'s destination `(p + 1) % size` is `r`). -/
+abbrev LrState (β : Type) := Nat → Nat → Option β
+
+def lrInit {β : Type} (x : Nat → Nat → β) (np : Nat) : LrState β :=
+  fun r b => if b = (r + np - 1) % np then some (x r b) else none
+
+def lrRsRound {β : Type} (op : β → β → β) (x : Nat → Nat → β) (np i : Nat) (st : LrState β) : LrState β :=
+  fun r b =>
+    let p := (r + np - 1) % np
+    if b = (r + 2 * np - (2 + i)) % np ∧ (p + 1) % np = r then
+      (st p ((p + 2 * np - (1 + i)) % np)).map fun v => op (x r b) v
+    else st r b
+
+def lrAgRound {β : Type} (np i : Nat) (st : LrState β) : LrState β :=
+  fun r b =>
+    let p := (r + np - 1) % np
+    if b = (r + 2 * np - (1 + i)) % np ∧ (p + 1) % np = r then st p ((p + 2 * np - i) % np) else st r b
+
+/-- rounds `0 … k-1` -/
+def lrIter {σ : Type} (f : Nat → σ → σ) : Nat → σ → σ
+  | 0, s => s
+  | k+1, s => f k (lrIter f k s)
+
+def allreduceLr {β : Type} (op : β → β → β) (x : Nat → Nat → β) (np : Nat) : LrState β :=
+  lrIter (lrAgRound np) (np - 1) (lrIter (lrRsRound op x np) (np - 1) (lrInit x np))
+
+/-- ### allgather Bruck (allgather-bruck.cpp)
+```
+  count = recv_count;  pof2 = 1;
+  copy send_buff -> tmp_buff                                   // tmp[0] = own block
+  while (pof2 <= num_procs / 2) {
+    src = (rank + pof2) % num_procs;  dst = (rank - pof2 + num_procs) % num_procs;
+    sendrecv(tmp_buff, count -> dst;  tmp_buff + count * recv_extent, count <- src);
+    count *= 2;  pof2 *= 2; }
+  remainder = num_procs - pof2;
+  if (remainder) { src = (rank + pof2) % num_procs;  dst = (rank - pof2 + num_procs) % num_procs;
+    sendrecv(tmp_buff, remainder * recv_count -> dst;  tmp_buff + count * recv_extent, remainder * recv_count <- src); }
+  copy tmp_buff [0, num_procs - rank) -> recv_ptr + rank * recv_count …            // blocks rank … np-1
+  if (rank) copy tmp_buff [num_procs - rank, num_procs) -> recv_ptr                // blocks 0 … rank-1
+```
+State: per rank the list of blocks of `tmp_buff`.  One round: rank `r` keeps its first `pof2` blocks and receives, at
+block offset `pof2`, the first `n` blocks of `src = (r + pof2) % np`; the model checks that `src`'s destination
+`(src - pof2 + np) % np` is `r`. -/
+def bruckRound {β : Type} (np pof2 n : Nat) (st : Nat → List β) : Nat → List β := fun r =>
+  let src := (r + pof2) % np
+  if (src + np - pof2) % np = r then (st r).take pof2 ++ (st src).take n else st r
+
+/-- the `while (pof2 <= num_procs / 2)` loop; returns the final `pof2` and the state -/
+def bruckLoop {β : Type} (np : Nat) : Nat → Nat → (Nat → List β) → Nat × (Nat → List β)
+  | 0, pof2, st => (pof2, st)
+  | fuel+1, pof2, st =>
+    if pof2 ≤ np / 2 then bruckLoop np fuel (pof2 * 2) (bruckRound np pof2 pof2 st) else (pof2, st)
+
+/-- receive buffer of `rank` (one slot per rank; `none` = never written); `x r` = send buffer of rank `r` -/
+def allgatherBruck {β : Type} (x : Nat → β) (np rank : Nat) : List (Option β) :=
+  let (pof2, st) := bruckLoop np np 1 (fun r => [x r])
+  let rem := np - pof2
+  let st := if rem ≠ 0 then bruckRound np pof2 rem st else st
+  (List.range np).map fun i => if rank ≤ i then (st rank)[i - rank]? else (st rank)[np - rank + i]?
+
+/-- ### alltoall ring (alltoall-ring.cpp), every communicator size
+```
+  for (i = 0; i < num_procs; i++) { src = (rank - i + num_procs) % num_procs;  dst = (rank + i) % num_procs;
+    sendrecv(send_ptr + dst * send_chunk -> dst,  recv_ptr + src * recv_chunk <- src); }
+```
+(round 0 is the local copy).  `blocks[j][r]` = block that rank `j` sends to rank `r`. -/
+def a2aRingRounds {β : Type} (blocks : List (List β)) (rank : Nat) : Nat → List (Option β) → List (Option β)
+  | 0, slots => slots
+  | k+1, slots =>
+    let np := blocks.length
+    let slots := a2aRingRounds blocks rank k slots
+    let src := (rank + np - k) % np
+    -- matching send: `src` sends its block number `(src + k) % np` to that rank in round `k`; that must be `rank`
+    if (src + k) % np = rank then
+      match (blocks.getD src [])[rank]? with
+      | some b => slots.set src (some b)
+      | none => slots
+    else slots
+
+def alltoallRing {β : Type} (blocks : List (List β)) (rank : Nat) : List (Option β) :=
+  a2aRingRounds blocks rank blocks.length (List.replicate blocks.length none)
 
 end Sched
 end SgVerif.C29
